@@ -126,14 +126,14 @@ theorem scan_atEnd {e : Env} {s : PState} (h : AtEnd e s) : scan .normal [] (e.t
 
 theorem unknownStart_balanced (toks : Array PTok) (strict : Bool) (f32 : List Char → Option (List Char))
     (hk : TokOk toks) (hne : 0 < toks.size) (hni : NoInc (specialEnv toks strict))
-    (hat : AtomsOk (specialEnv toks strict)) (hcb : NoCommentBeforeBegin (specialEnv toks strict))
+    (hat : AtomsOk (specialEnv toks strict))
     (ctx : Ctx) (s : PState) (hs : s.pos ≤ toks.size) :
     (balanced toks s.pos = true →
       ∃ g s', unknownStart ctx (specialEnv toks strict) s = .ok g s' ∧ AtEnd (specialEnv toks strict) s' ∧
         Rel (specialEnv toks strict) f32 s s' (values true g)) ∧
     (balanced toks s.pos = false → ∃ d s', unknownStart ctx (specialEnv toks strict) s = .err d s') := by
   have htot := good_total (unknownStart_good (F := True) (cfgS toks strict hk hne) (fun _ _ => hni) ctx s (fun _ => hs))
-  have hspec := unknownStart_spec f32 hat hcb ctx s hs
+  have hspec := unknownStart_spec f32 hat ctx s hs
   cases hr : unknownStart ctx (specialEnv toks strict) s with
   | panic => exact absurd hr htot.1
   | fuel => exact absurd hr htot.2.1
